@@ -58,10 +58,13 @@ PLAN = {
                     "pandas iloc / mask, R-tree candidates) by the bounded stand-in against the exact C01 oracle",
     ),
     'C05': dict(
-        modules=[], level='other', stages=[RTC], stand_in_only=True,
-        trusted_base=COMMON_TRUST, assumptions=[RTC_NOTE],
-        explanation="sjoin is pandas merge glue over C02/C03/C13; decided only by the bounded stand-in: pair table, index and "
-                    "suffix handling for how in {inner,left,right} against the exact C02 oracle",
+        modules=['c14_measures', 'c02_point', 'glue_fixed', 'c15_orient', 'c16_isnull', 'c13_bounds', 'c01_box'], level='other', stages=[RTC],
+        trusted_base=COMMON_TRUST + [NUMPY_TRUST], assumptions=[MATH_ARITH, 'coordinates finite', RTC_NOTE],
+        explanation="proved: the exact test sjoin applies to the index candidates - PointArray.intersects(shape, inds) and its "
+                    "helpers (row k of the mask belongs to position inds[k], whatever the order and length of inds; a missing "
+                    "point never matches) over the proved point kernels; sjoin itself is pandas merge glue over C02/C03/C13 "
+                    "and is decided by the bounded stand-in: pair table, index labels and suffix handling for how in "
+                    "{inner,left,right}, pandas and Dask left frames, against the exact C02 oracle",
     ),
     'C06': dict(
         modules=['glue_dask'], level='other', stages=[RTC],
